@@ -17,6 +17,7 @@ def register(reg):
     register_formats(reg)
     register_docs(reg)
     register_seq(reg)
+    register_keyfile_path(reg)
     register_stubs(reg)
     register_hash(reg)
     register_env(reg)
@@ -283,6 +284,13 @@ def register_formats(reg):
     attr("pf_kwargs", "$pf_kwargs")
     attr("fmt_name", "$fmt_name")
     attr("fmt_opts", "$fmt_opts")
+
+
+def register_keyfile_path(reg):
+    @reg.specfun("default_keyfile_path")
+    def default_keyfile_path(ex, st, args, cx):
+        """Config.DEFAULT_CINCOKEY_FILEPATH: a class constant computed at import time (expanduser('~') + '/.cincokey')"""
+        return ex.o.str_(z3.String("DEFAULT_CINCOKEY_FILEPATH"))
 
 
 def register_seq(reg):
